@@ -193,6 +193,18 @@ func (c *vc3Case) do(fr *vc3Frag, op string) string {
 		}
 		return fr.model[r]
 	}
+	if op == "derive" || op == "deriveMerged" {
+		// prefer rows that hold data: an empty row shares nothing with the storage
+		var full []uint64
+		for _, r := range vc3Rows {
+			if len(fr.model[r]) > 0 {
+				full = append(full, r)
+			}
+		}
+		if len(full) > 0 && rapid.IntRange(0, 3).Draw(t, "preferFull") != 0 {
+			row = rapid.SampledFrom(full).Draw(t, "fullRow")
+		}
+	}
 	switch op {
 	case "derive":
 		r := fr.f.row(row)
@@ -467,7 +479,7 @@ func TestVerifC03_Fragment(t *testing.T) {
 			}
 		}()
 		// a few writes first, so that early derived rows are not all empty
-		for i, n := 0, rapid.IntRange(0, 4).Draw(t, "prefill"); i < n; i++ {
+		for i, n := 0, rapid.IntRange(1, 4).Draw(t, "prefill"); i < n; i++ {
 			c.stepFrom([]string{"setBit", "bulkImport", "importRoaring", "importDense", "importDense", "snapshot"})
 		}
 		nsteps := rapid.IntRange(3, vkit.Scale(30, 50)).Draw(t, "nsteps")
